@@ -24,7 +24,7 @@ VS_SIG, VS_VER = 0xfeef04bd, 0x00010000
 MISC_NINTS = {1: 6, 2: 11, 3: 15 + (1 + 32 + 8 + 1 + 32 + 8 + 1), 4: 15 + 83 + 300, 5: 15 + 83 + 300 + 3 + 128 + 1}
 MISC_SIGNED = {3: {15, 15 + 41, 15 + 82}}
 SECTIONS = ["hdr", "sys", "thr", "mod", "mem", "memq", "m64", "m64q", "exc", "tnm", "unl", "mi", "misc",
-            "bp", "asr", "ti", "lxcpu", "lxstatus", "lxlsb", "lxenv", "lxmaps", "lxlim", "hnd", "dir", "unk"]
+            "bp", "asr", "ti", "lxcpu", "lxstatus", "lxlsb", "lxenv", "lxmaps", "lxlim", "hnd", "dir", "unk", "serr", "boot", "cpad"]
 RAW_KEYS = ["lxcpu", "lxstatus", "lxlsb", "lxenv", "lxmaps", "lxlim"]
 KV_SEP = {"lxcpu": b":", "lxstatus": b":", "lxlsb": b"=", "lxenv": b"="}
 
@@ -60,6 +60,189 @@ def expected_dir(h, big):
         if ty not in NAMED:
             unk.append([ty, size, rva, stream_vendor(ty)])
     return {"dir": (2, items), "unk": (2, unk)}
+
+
+# ----------------------------------------------------------------------------- round 4 streams (written by the plugin itself)
+# MozSoftErrors / MozMacosBootargsStream / CrashpadInfoStream are serialized HERE, in the documented format, appended to the
+# Coq-serialized dump and announced by (leading) directory entries.  The extracted Coq serializers enc_bootargs / enc_crashpad
+# must produce the same bytes (checked in gen_cases), the extracted readers and the real readers read them back.
+T_SERR, T_BOOT, T_CPAD = 0x4d7a0004, 0x4d7a0002, 0x43500001
+TAIL_TYPE = {1: T_SERR, 2: T_BOOT, 3: T_CPAD}
+TAIL_SEC = {1: "serr", 2: "boot", 3: "cpad"}
+
+
+def _u(n, v, big):
+    return int(v).to_bytes(n, "big" if big else "little")
+
+
+def utf8z(s, big):
+    return _u(4, len(s), big) + bytes(s) + b"\0"
+
+
+def ser_counted(items, esize, entry, off, big):
+    """u32 count, the fixed-size entries, then each entry's out-of-line data in order -> (size of the list proper, bytes)"""
+    ssize = 4 + len(items) * esize
+    ents, aux = b"", b""
+    for it in items:
+        e, a = entry(it, off + ssize + len(aux))
+        assert len(e) == esize
+        ents += e
+        aux += a
+    return ssize, _u(4, len(items), big) + ents + aux
+
+
+def ser_dict(kvs, off, big):
+    return ser_counted(kvs, 8, lambda kv, o: (_u(4, o, big) + _u(4, o + 5 + len(kv[0]), big), utf8z(kv[0], big) + utf8z(kv[1], big)), off, big)
+
+
+def ser_strlist(l, off, big):
+    return ser_counted(l, 4, lambda x, o: (_u(4, o, big), utf8z(x, big)), off, big)
+
+
+def ser_annots(l, off, big):
+    def entry(a, o):
+        name, ty, rs, val = a
+        if isinstance(val, bytes):
+            return (_u(4, o, big) + _u(2, ty, big) + _u(2, rs, big) + _u(4, o + 5 + len(name), big), utf8z(name, big) + _u(4, len(val), big) + val)
+        return (_u(4, o, big) + _u(2, ty, big) + _u(2, rs, big) + _u(4, val, big), utf8z(name, big))
+    return ser_counted(l, 12, entry, off, big)
+
+
+def ser_cmodule(cm, off, big):
+    o1 = off + 28
+    z1, b1 = ser_strlist(cm["list"], o1, big)
+    o2 = o1 + len(b1)
+    z2, b2 = ser_dict(cm["simple"], o2, big)
+    o3 = o2 + len(b2)
+    z3, b3 = ser_annots(cm["objs"], o3, big)
+    return _u(4, cm["ver"], big) + b"".join(_u(4, x, big) for x in (z1, o1, z2, o2, z3, o3)) + b1 + b2 + b3
+
+
+def ser_guid(g, big):
+    return _u(4, g[0], big) + _u(2, g[1], big) + _u(2, g[2], big) + bytes(g[3:11])
+
+
+def ser_crashpad(c, off, big):
+    o1 = off + 52
+    z1, b1 = ser_dict(c["simple"], o1, big)
+    o2 = o1 + len(b1)
+    z2, b2 = ser_counted(c["mods"], 12, lambda cm, o: (_u(4, cm["idx"], big) + _u(4, 28, big) + _u(4, o, big), ser_cmodule(cm, o, big)), o2, big)
+    return 52, _u(4, c["ver"], big) + ser_guid(c["report"], big) + ser_guid(c["client"], big) + _u(4, z1, big) + _u(4, o1, big) + _u(4, z2, big) + _u(4, o2, big) + b1 + b2
+
+
+def ser_bootargs(x, off, big):
+    ty, args = x
+    if args is None:
+        return 12, _u(4, ty, big) + _u(8, U32, big)
+    return 12, _u(4, ty, big) + _u(8, off + 12, big) + _u(4, 2 * len(args), big) + b"".join(_u(2, c, big) for c in args)
+
+
+def ser_tail(kind, x, off, big):
+    if kind == 1:
+        return len(x), bytes(x)
+    if kind == 2:
+        return ser_bootargs(x, off, big)
+    return ser_crashpad(x, off, big)
+
+
+def bstr_toks(b):
+    return [len(b)] + list(b)
+
+
+def tail_toks(kind, x):
+    if kind == 1:
+        return bstr_toks(x)
+    if kind == 2:
+        return [x[0]] + ([-1] if x[1] is None else str_toks(x[1]))
+    t = [x["ver"]] + list(x["report"]) + list(x["client"])
+
+    def kvs(l):
+        r = [len(l)]
+        for k, v in l:
+            r += bstr_toks(k) + bstr_toks(v)
+        return r
+    t += kvs(x["simple"]) + [len(x["mods"])]
+    for cm in x["mods"]:
+        t += [cm["idx"], cm["ver"], len(cm["list"])]
+        for z in cm["list"]:
+            t += bstr_toks(z)
+        t += kvs(cm["simple"]) + [len(cm["objs"])]
+        for name, ty, rs, val in cm["objs"]:
+            t += bstr_toks(name) + [ty, rs] + ([0] + bstr_toks(val) if isinstance(val, bytes) else [1, val])
+    return t
+
+
+def parse_tail(r, kind):
+    def bs():
+        return bytes(r.ints(r.int()))
+
+    def kvs():
+        return [(bs(), bs()) for _ in range(r.int())]
+    if kind == 1:
+        return bs()
+    if kind == 2:
+        ty = r.int()
+        n = r.int()
+        return (ty, None if n == -1 else r.ints(n))
+    c = {"ver": r.int(), "report": r.ints(11), "client": r.ints(11), "simple": kvs(), "mods": []}
+    for _ in range(r.int()):
+        cm = {"idx": r.int(), "ver": r.int(), "list": [bs() for _ in range(r.int())], "simple": kvs(), "objs": []}
+        for _ in range(r.int()):
+            name, ty, rs, k = bs(), r.int(), r.int(), r.int()
+            cm["objs"].append((name, ty, rs, bs() if k == 0 else r.int()))
+        c["mods"].append(cm)
+    return c
+
+
+def is_utf8(b):
+    try:
+        bytes(b).decode("utf-8")
+        return True
+    except UnicodeDecodeError:
+        return False
+
+
+def bl(b):
+    return [len(b)] + list(b)
+
+
+def tail_expect(kind, x):
+    """what reading the stream must give: (status, items)"""
+    if kind == 1:
+        return (2, [bl(x)]) if is_utf8(x) else (1, [])
+    if kind == 2:
+        ty, args = x
+        return (2, [[ty] + ([-1] if args is None or not valid_utf16(args) else str_toks(args))])
+    c = x
+    strings = [s for kv in c["simple"] for s in kv]
+    for cm in c["mods"]:
+        strings += cm["list"] + [s for kv in cm["simple"] for s in kv]
+        for name, ty, rs, val in cm["objs"]:
+            strings.append(name)
+            if ty == 1:
+                if not isinstance(val, bytes):
+                    return None          # a string annotation with a dangling value: outside what the property fixes
+                strings.append(val)
+    if c["ver"] == 0 or not all(is_utf8(z) for z in strings):
+        return (1, [])
+    items = [[0, c["ver"]] + list(c["report"]) + list(c["client"])]
+    for k, v in sorted(dict(c["simple"]).items()):
+        items.append([1] + bl(k) + bl(v))
+    for i, cm in enumerate(c["mods"]):
+        sm = sorted(dict(cm["simple"]).items())
+        ob = sorted({a[0]: a for a in cm["objs"]}.items())
+        items.append([2, i, cm["idx"], cm["ver"], len(cm["list"]), len(sm), len(ob)])
+        items += [[3, i] + bl(z) for z in cm["list"]]
+        items += [[4, i] + bl(k) + bl(v) for k, v in sm]
+        for k, (name, ty, rs, val) in ob:
+            if ty == 1:
+                o = [1] + bl(val)
+            elif ty == 0:
+                o = [0]
+            else:
+                o = [2 if ty >= 0x8000 else 3, ty, rs, val]
+            items.append([5, i] + bl(k) + o)
+    return (2, items)
 
 
 # ----------------------------------------------------------------------------- blobs / tokens
@@ -146,6 +329,12 @@ def model_tokens(m):
         return [-1] if o is None else str_toks(o)
 
     opt("hnd", lambda x: (t.append(x[0]), lst(lambda h: t.extend([h["h"]] + ostr(h["type"]) + ostr(h["obj"]) + h["ints"]))(x[1])))
+    # round 4 streams written by the plugin (the Coq token parser stops before them)
+    tail = m.get("tail") or []
+    t.append(len(tail))
+    for kind, x in tail:
+        t.append(kind)
+        t.extend(tail_toks(kind, x))
     return t
 
 
@@ -244,6 +433,11 @@ def parse_model(toks):
         return None if n == -1 else r.ints(n)
 
     m["hnd"] = opt(lambda: (r.int(), lst(lambda: {"h": r.int(), "type": ostr(), "obj": ostr(), "ints": r.ints(4)})()))
+    m["tail"] = []
+    if r.i < len(r.t):
+        for _ in range(r.int()):
+            kind = r.int()
+            m["tail"].append((kind, parse_tail(r, kind)))
     return m
 
 
@@ -574,6 +768,9 @@ def expected(m):
     def onm(o):
         return [-1] if o is None else [len(o)] + list(o)
 
+    for kind in (1, 2, 3):
+        l = [x for k2, x in (m.get("tail") or []) if k2 == kind]
+        E[TAIL_SEC[kind]] = tail_expect(kind, l[-1]) if l else (0, [])
     E["hnd"] = sec("hnd", lambda x: all(valid_utf16(h["type"] or []) and valid_utf16(h["obj"] or []) for h in x[1]),
                    lambda x: [[2 if x[0] else 1, h["h"]] + h["ints"] + onm(h["type"]) + onm(h["obj"]) for h in x[1]])
     return E
@@ -635,7 +832,7 @@ def compare(E, got, only=None, what="reading"):
             continue
         est, eitems = exp
         if st != est:
-            return "%s: stream %s status %d, the model has %s" % (what, name, st, {0: "no such stream", 2: "a well-formed stream"}[est])
+            return "%s: stream %s status %d, the model has %s" % (what, name, st, {0: "no such stream", 1: "a stream the reader must refuse", 2: "a well-formed stream"}[est])
         if len(items) != len(eitems):
             return "%s: stream %s yields %d items, the model has %d" % (what, name, len(items), len(eitems))
         for k, (a, b) in enumerate(zip(eitems, items)):
@@ -660,6 +857,7 @@ def synth_view(m):
     if m.get("mi") is not None:
         s["mi"] = [[r[0], r[1], r[2], 0, r[4], r[5], r[6], r[7], 0] for r in m["mi"]]
     s["misc"] = None
+    s["tail"] = []
     return s
 
 
@@ -980,7 +1178,69 @@ class Gen:
                 return units()
             m["hnd"] = (r.below(2), [{"h": self.u(64), "type": oname(), "obj": oname(), "ints": [self.u(32) for _ in range(4)]}
                                      for _ in range(self.count())])
+        m["tail"] = self.tail(wf)
         return m
+
+    def bstr(self, wf):
+        """a UTF-8 string: short ASCII from a small alphabet (so that keys repeat), multi-byte, empty; not wf: sometimes broken"""
+        r = self.r
+        st = r.below(10)
+        if st < 5:
+            b = bytes(r.choice(b"abAB01_") for _ in range(r.below(4)))
+        elif st < 7:
+            b = "".join(r.choice(["a", "é", "☃", "𝄞", "\u07ff", "\ud7ff", "\ue000", "\U0010ffff", "~", "\x7f", "\x01"]) for _ in range(r.below(5))).encode("utf-8")
+        elif st < 9:
+            b = bytes(r.range(0x20, 0x7e) for _ in range(r.below(24)))
+        else:
+            b = b""
+        if not wf and r.chance(1, 6):
+            b += r.choice([b"\xff", b"\xc0\x80", b"\xed\xa0\x80", b"\xe2\x98", b"\xf4\x90\x80\x80", b"\x80", b"\xf0\x8f\xbf\xbf", b"\xc3"])
+        return b
+
+    def tail(self, wf):
+        r = self.r
+        out = []
+        if r.chance(1, 3):
+            for _ in range(r.choice([1, 1, 1, 2])):
+                st = r.below(4)
+                if st == 0:
+                    out.append((1, b'{"errors":[' + self.bstr(wf) + b"]}"))
+                elif st == 1:
+                    out.append((1, b"".join(self.bstr(wf) for _ in range(r.below(4)))))
+                else:
+                    out.append((1, self.text(b":").b if wf or r.chance(1, 2) else bytes(r.below(256) for _ in range(r.below(12)))))
+                    if wf and not is_utf8(out[-1][1]):
+                        out[-1] = (1, b"{}")
+        if r.chance(1, 3):
+            for _ in range(r.choice([1, 1, 1, 2])):
+                while True:
+                    u = self.units()
+                    if not wf or valid_utf16(u):
+                        break
+                out.append((2, (r.choice([T_BOOT, T_BOOT, 0, self.u(32)]), u if (wf or r.chance(5, 6)) else None)))
+        if r.chance(1, 2):
+            def kvs():
+                return [(self.bstr(wf), self.bstr(wf)) for _ in range(r.choice([0, 1, 2, 3, 5]))]
+
+            def annot():
+                ty = r.choice([1, 1, 1, 0, 2, 0x7fff, 0x8000, 0x8001, 0xffff, self.u(16)])
+                return (self.bstr(wf), ty, r.choice([0, 0, self.u(16)]), self.bstr(wf) if ty == 1 else self.u(32))
+            for _ in range(r.choice([1, 1, 1, 1, 2])):
+                ver = r.choice([1, 1, 1, 2, self.u(32)]) if (wf or r.chance(5, 6)) else 0
+                if wf and ver == 0:
+                    ver = 1
+                out.append((3, {"ver": ver, "report": [self.u(32), self.u(16), self.u(16)] + [r.below(256) for _ in range(8)],
+                                "client": [self.u(32), self.u(16), self.u(16)] + [r.below(256) for _ in range(8)],
+                                "simple": kvs(),
+                                "mods": [{"idx": self.u(32) if r.chance(1, 3) else r.below(8), "ver": r.choice([1, 0, self.u(32)]),
+                                          "list": [self.bstr(wf) for _ in range(r.choice([0, 1, 2, 4]))], "simple": kvs(),
+                                          "objs": [annot() for _ in range(r.choice([0, 1, 2, 4]))]}
+                                         for _ in range(r.choice([0, 1, 1, 2, 3]))]}))
+        # any order of the streams in the file
+        for i in range(len(out) - 1, 0, -1):
+            j = r.below(i + 1)
+            out[i], out[j] = out[j], out[i]
+        return out
 
     def text(self, sep):
         """/proc-style text: key/value lines with blanks, quotes, missing separators, odd bytes"""
@@ -1135,16 +1395,48 @@ class C02(PropBase):
             for k in ST:
                 if m.get(k) is not None:
                     dist["streams"][k] += 1
-            if rng.chance(2, 3):
-                m["extra"] = self.gen_extras(rng, dir_entries(h, False), len(h) // 2)
+            tail = m.get("tail") or []
+            sizes = [len(ser_tail(kind, x, 0, False)[1]) for kind, x in tail]          # independent of offset and byte order
+            extra = []
+            if rng.chance(2, 3) or tail:
+                extra = self.gen_extras(rng, dir_entries(h, False), len(h) // 2 + sum(sizes), len(tail), [TAIL_TYPE[k2] for k2, _ in tail])
                 dist["with_duplicate_directory_entries"] += 1
-                dist["extra_directory_entries"] = dist.get("extra_directory_entries", 0) + len(m["extra"])
+            # the plugin-written streams follow the Coq-serialized dump; their directory entries come after the decoys
+            base = len(h) // 2 + 12 * (len(extra) + len(tail))
+            m["tail_off"] = []
+            for (kind, x), z in zip(tail, sizes):
+                m["tail_off"].append(base)
+                extra.append((TAIL_TYPE[kind], ser_tail(kind, x, base, False)[0], base))
+                base += z
+                dist["streams"][TAIL_SEC[kind]] = dist["streams"].get(TAIL_SEC[kind], 0) + 1
+            m["extra"] = extra
+            dist["extra_directory_entries"] = dist.get("extra_directory_entries", 0) + len(extra)
         toks = []
         for m in models:
             for en in (0, 1):
                 mm = with_endian(m, en)
                 toks.append((mm, model_tokens(mm)))
         hexes = self.encode_all([t for _, t in toks])
+        # append the plugin-written streams; the extracted Coq serializers of the same streams must agree byte for byte
+        xlines, xwant = [], []
+        for i, ((mm, t), h) in enumerate(zip(toks, hexes)):
+            big = mm["endian"] == 1
+            for (kind, x), off in zip(mm.get("tail") or [], mm.get("tail_off") or []):
+                if len(h) // 2 != off:
+                    raise vlib.CheckFailure("plugin-written stream would not land at its recorded offset (%d != %d)" % (len(h) // 2, off))
+                b = ser_tail(kind, x, off, big)[1]
+                h = (h if h != "-" else "") + b.hex()
+                if kind != 1:
+                    xlines.append("T %d %d %d %s" % (kind, mm["endian"], off, " ".join(map(str, tail_toks(kind, x)))))
+                    xwant.append(b.hex() or "-")
+            hexes[i] = h
+        if xlines:
+            exe = vlib.ocaml_build(self.pid)
+            got, dead = vlib.run_lines([exe], xlines, timeout=600, mem_gb=8)
+            bad = [(l, g) for l, g, w in zip(xlines, got, xwant) if g != w]
+            if dead or bad:
+                raise vlib.CheckFailure("the extracted Coq serializer of a round-4 stream and the plugin's writer disagree: %s" % (str((dead or bad)[:1])[:600],))
+            dist["stream_serializers_cross_checked"] = len(xlines)
         cases = []
         for (mm, t), h in zip(toks, hexes):
             tag = "S" if synth_ok(mm) else "N"
@@ -1154,7 +1446,7 @@ class C02(PropBase):
         return cases, dist, False
 
     @staticmethod
-    def gen_extras(rng, ents, flen):
+    def gen_extras(rng, ents, flen, ntail=0, tail_types=()):
         """leading directory entries: 2-4 entries (counting the real one) of types the dump has, 2-4 of named types without a
         reader, 2-4 of vendor / unknown types, singletons; locations inside the file (distinct bytes), empty, out of bounds"""
         groups = []
@@ -1168,7 +1460,10 @@ class C02(PropBase):
             if ty in NAMED:
                 ty = 0x4d7a0b0b
             groups.append((ty, rng.choice([1, 2, 2, 3, 3, 4]), False))
-        k = sum(g[1] for g in groups)
+        for ty in tail_types:                               # decoys of the plugin-written streams (their real entry comes last)
+            if rng.chance(1, 2):
+                groups.append((ty, rng.range(1, 3), True))
+        k = sum(g[1] for g in groups) + ntail
         total = flen + 12 * k                               # the directory grows by 12 bytes per extra entry
         extra = []
         for ty, n, real in groups:
@@ -1324,6 +1619,10 @@ class C02(PropBase):
             return out
         toks[0] = 1 - toks[0]
         h2 = self.encode_all([toks])[0]
+        m2 = parse_model(toks)
+        tail = m2.get("tail") or []
+        for (kind, x), ent in zip(tail, m2["extra"][len(m2["extra"]) - len(tail):]):
+            h2 += ser_tail(kind, x, ent[2], toks[0] == 1)[1].hex()
         twin = hexline(h2, "N", toks)
         for prof, ans in ctx["impl"].items():
             if not ans or ans[0] is None:
